@@ -57,7 +57,7 @@ PROPS = {
         'assumptions': [],
     },
     'C17': {
-        'kinds': {1701: {'quick': 1200, 'thorough': 20000}},
+        'kinds': {1701: {'quick': 1200, 'thorough': 20000}, 302: {'quick': 3000, 'thorough': 60000}, 1803: {'quick': 3000, 'thorough': 60000}},
         'trusted': ['Go select semantics: one ready case is chosen; channel operations are atomic steps of the manager loop'],
         'assumptions': ['callers release only reservations they were granted (caller protocol)'],
     },
